@@ -772,6 +772,11 @@ func (e *Engine) enterBlockVals(p *Path, fr *Frame, b, from *ssa.BasicBlock, val
 }
 
 func (e *Engine) loopCtx(p *Path, fr *Frame, li *loopInfo, pre *State) *EvalCtx {
+	// old() in invariants/variants/modifies of a loop of the function under verification is the
+	// function's entry state (like in its postconditions), not the state just before the loop
+	if fr.top && e.curEntry != nil && !e.inInit {
+		pre = e.curEntry
+	}
 	ctx := e.funcCtx(p, fr, pre)
 	ctx.lookup = func(name string) (TV, bool) { return e.resolveLocal(p, fr, li.header, name) }
 	return ctx
@@ -805,6 +810,7 @@ func (e *Engine) checkSteps(p *Path, fr *Frame, li *loopInfo, spec *LoopSpec) {
 		return
 	}
 	ctx := e.loopCtx(p, fr, li, st0)
+	ctx.old = st0 // a step clause is about one iteration: old() is the start of this iteration
 	for i, sc := range spec.Steps {
 		t, err := ctx.EvalBool(sc.E)
 		if err != nil {
